@@ -8,6 +8,7 @@ import (
 	"strings"
 	"sync"
 	"testing"
+	"time"
 
 	"github.com/aws/aws-sdk-go/aws"
 	"github.com/aws/aws-sdk-go/aws/session"
@@ -25,7 +26,7 @@ func TestMain(m *testing.M) {
 		"rapid state machine of Store / Load / LoadLatest over 3 adversarial ids x 5 overlapping timestamps with records of arbitrary binary keys (1-300 bytes), revoked on/off, with/without parent meta, against a reference table, for: "+
 			"MemoryMetastore; SQLMetastore (mysql, postgres, oracle placeholder dialects) over a fake database/sql driver that INTERPRETS the statements against the documented schema (PRIMARY KEY(id, created), second-resolution TIMESTAMP, dialect-specific placeholders); "+
 			"both DynamoDB metastores (SDK v1 and v2) over one semantic fake that evaluates condition / key-condition / projection expressions with their name and value maps, honours ScanIndexForward and Limit, knows only the configured table and is eventually consistent unless ConsistentRead is set; "+
-			"table names and region suffix drawn. Plus a concurrent same-key Store race on MemoryMetastore. "+
+			"table names and region suffix drawn. One Store in seven is issued with an already cancelled / expired context (it may fail, but never reports a duplicate as stored, never touches an existing row, and true still means stored). Plus a concurrent same-key Store race on MemoryMetastore. "+
 			"Oracle: Store returns true exactly when (id, created) was absent and never changes an existing row; Load returns the persisted fields or nil,nil; LoadLatest returns the greatest created; every completed Store is visible to every later read; GetRegionSuffix = region iff enabled. "+
 			"One evaluation = one sequence on one backend. Non-trivial = contains a duplicate Store and a LoadLatest over >= 2 versions; distinct = (backend, operation sequence)",
 		"the fakes' reading of DynamoDB / SQL semantics is the trusted base; no real database", "EnvelopeKeyRecord.ID is documented as not persisted (json:\"-\") and is not compared")
@@ -135,7 +136,7 @@ func TestModel(t *testing.T) {
 		stamps := []int64{base, base + 1, base + 2, base + 60, base + 3600}
 		model := map[string]map[int64]rec{}
 		var trace []string
-		dupStore, latestMulti := false, false
+		dupStore, latestMulti, deadStore := false, false, false
 		bad := func(format string, args ...any) {
 			if u := b.unsupported(); len(u) > 0 {
 				fmt.Printf("VERIF-INCONCLUSIVE fake cannot interpret: %v\n", u)
@@ -168,9 +169,54 @@ func TestModel(t *testing.T) {
 					pm := *r.parent
 					ekr.ParentKeyMeta = &pm
 				}
+				_, exists := model[id][created]
+				if rapid.IntRange(0, 6).Draw(t, "deadCtx") == 0 {
+					// the caller's context is already cancelled / past its deadline: the Store may fail, but it must
+					// not report success for a duplicate, must not touch an existing row, and "true" still means stored
+					dead, cancel := context.WithCancel(ctx)
+					if rapid.Bool().Draw(t, "deadline") {
+						dead, cancel = context.WithDeadline(ctx, time.Unix(1, 0))
+					} else {
+						cancel()
+					}
+					trace = append(trace, fmt.Sprintf("Store[dead ctx](%q,%d,%s)", id, created, r))
+					ok, err := b.ms.Store(dead, id, created, ekr)
+					cancel()
+					deadStore = true
+					got, lerr := b.ms.Load(ctx, id, created)
+					if lerr != nil {
+						bad("Load after a Store with a dead context returned an error: %v", lerr)
+					}
+					switch {
+					case exists:
+						dupStore = true
+						if ok {
+							bad("Store of an existing (id, created) with a cancelled context returned true (err=%v)", err)
+						}
+					case ok:
+						if got == nil {
+							bad("Store with a cancelled context returned true but the row is not there")
+						} else if d := same(r, got); d != "" {
+							bad("Store with a cancelled context returned true but the row differs: %s", d)
+						}
+						if model[id] == nil {
+							model[id] = map[int64]rec{}
+						}
+						model[id][created] = r
+					case got != nil:
+						// reported as not stored but applied: allowed for a failed call; the row must be this record
+						if d := same(r, got); d != "" {
+							bad("a failed Store left a row that is not the record it was given: %s", d)
+						}
+						if model[id] == nil {
+							model[id] = map[int64]rec{}
+						}
+						model[id][created] = r
+					}
+					continue
+				}
 				trace = append(trace, fmt.Sprintf("Store(%q,%d,%s)", id, created, r))
 				ok, err := b.ms.Store(ctx, id, created, ekr)
-				_, exists := model[id][created]
 				if exists {
 					dupStore = true
 					if ok {
@@ -241,6 +287,9 @@ func TestModel(t *testing.T) {
 			return map[string]any{"backend": name, "sequence": trace}
 		})
 		kit.Rec.Label("backend:" + name)
+		if deadStore {
+			kit.Rec.Label("has-store-with-dead-context")
+		}
 	})
 }
 
